@@ -1,6 +1,282 @@
-(* C37 — statements only (work in progress: placeholder until Proof/C37.v lands) *)
-From Coq Require Import List NArith.
+(* C37 — backend clients honour the storage contract.
+   Statements only; every proof is `exact <lemma from Proof/C37*.v>`.
+
+   Partial by construction: the storage engines (the file tree behind the testfs server, the SQL
+   table behind gorm, the S3 bucket and its pager) are association lists; what is proved is
+   Kraken's own logic on top of them — path / key / repo:tag mappings, the upsert, the two SQL
+   list queries, the directory walk, the S3 pagination callback, the shadow composition — as a
+   refinement of the contract  name |-> bytes.  `guard c ops` is the contract's domain, a boolean
+   over the history's name space: the client maps every name to an engine key, different names to
+   different keys (testfs: no key is a directory of another), sql contents are non-empty when the
+   engine skips zero-valued assigns (sql_zero), no objects written behind the client's back;
+   `guard_list` adds that listing maps keys back to names (C36's round trip).  Outside the domain:
+   the `_refuted` / observation witnesses at the end. *)
+From Coq Require Import List NArith Bool.
 From K.Model Require Import C37.
+From K.Proof Require C37 C37_pages C37_thm C37_wit C37_names.
 Import ListNotations.
-Example C37_placeholder : strip1 [47; 97]%N = [97]%N.
+Local Open Scope N_scope.
+
+(* ---- clause 4: a paginated listing returns every name exactly once across its pages.
+   The loop of s3backend.List over ANY page sequence: keys ks in service order, callback limit m,
+   any page-size oracle zss for the successive calls.  A consumer that follows the continuation
+   tokens ends with the empty token and has received exactly ks (as names), in order, each once. *)
+Theorem C37_s3_pages_exactly_once :
+  forall (name_of : str -> option str) (m : N) (ks : list str) (zss : list (list N)) (fuel : nat),
+  (length zss + length ks < fuel)%nat ->
+  let l := s3_session fuel name_of m ks 0 zss in
+  last_tok l = 0 /\ concat (map fst l) = filter_map name_of ks.
+Proof. exact Proof.C37_pages.s3_session_complete. Qed.
+Print Assumptions C37_s3_pages_exactly_once.
+
+(* one List call returns a prefix of what remains, whatever the page sizes (and whatever the fuel) *)
+Theorem C37_s3_call_returns_prefix :
+  forall (name_of : str -> option str) (m : N) (fuel : nat) (rest : list str) (zs : list N)
+         (acc names rest' : list str),
+  s3_call fuel name_of m rest zs acc = (names, rest') ->
+  exists consumed, rest = consumed ++ rest' /\ names = acc ++ filter_map name_of consumed.
+Proof. exact Proof.C37_pages.s3_call_spec. Qed.
+Print Assumptions C37_s3_call_returns_prefix.
+
+(* the fuel of the totalised loops is adequate: more fuel never changes the result *)
+Theorem C37_s3_call_fuel_adequate :
+  forall (name_of : str -> option str) (m : N) (f1 f2 : nat) (rest : list str) (zs : list N) (acc : list str),
+  (length zs + length rest < f1)%nat -> (f1 <= f2)%nat ->
+  s3_call f1 name_of m rest zs acc = s3_call f2 name_of m rest zs acc.
+Proof. exact Proof.C37_pages.s3_call_fuel. Qed.
+Print Assumptions C37_s3_call_fuel_adequate.
+
+Theorem C37_s3_session_fuel_adequate :
+  forall (name_of : str -> option str) (m : N) (ks : list str) (zss : list (list N)) (f1 f2 : nat),
+  (length zss + length ks < f1)%nat -> (f1 <= f2)%nat ->
+  s3_session f1 name_of m ks 0 zss = s3_session f2 name_of m ks 0 zss.
+Proof. exact Proof.C37_pages.s3_session_fuel. Qed.
+Print Assumptions C37_s3_session_fuel_adequate.
+
+(* the non-paginated List is one such call: a prefix, complete iff its token is empty *)
+Theorem C37_s3_unpaged_prefix_partial :
+  forall (name_of : str -> option str) (m : N) (ks : list str) (zs : list N) (names : list str) (tok' : N),
+  s3_list_once name_of m ks 0 zs = (names, tok') ->
+  exists consumed rest', ks = consumed ++ rest' /\ names = filter_map name_of consumed /\
+                         (tok' = 0 <-> rest' = []).
+Proof. exact Proof.C37_pages.s3_list_once_first. Qed.
+Print Assumptions C37_s3_unpaged_prefix_partial.
+
+(* ---- shadow over ANY two clients: if each honours the contract on names D / contents V, the
+   shadow client over them (write both, read active, stat both) honours it on their common store *)
+Theorem C37_shadow_contract :
+  forall (SA SB : Type) (stepA : SA -> op -> SA * out) (stepB : SB -> op -> SB * out)
+         (RA : SA -> store -> Prop) (RB : SB -> store -> Prop) (D V : str -> Prop) (tA tB : bool),
+  (forall a s n v, RA a s -> D n -> V v ->
+     exists a', stepA a (Upload n v) = (a', OOk) /\ RA a' (sset n v s)) ->
+  (forall a s n, RA a s -> D n -> stepA a (Download n) = (a, get_spec (sget n s))) ->
+  (forall a s n, RA a s -> D n -> stepA a (Stat n) = (a, stat_spec tA (sget n s))) ->
+  (forall b s n v, RB b s -> D n -> V v ->
+     exists b', stepB b (Upload n v) = (b', OOk) /\ RB b' (sset n v s)) ->
+  (forall b s n, RB b s -> D n -> stepB b (Stat n) = (b, stat_spec tB (sget n s))) ->
+  forall a b s n, RA a s -> RB b s -> D n ->
+  (forall v, V v -> exists a' b', shadow_step stepA stepB (a, b) (Upload n v) = ((a', b'), OOk) /\
+                                  RA a' (sset n v s) /\ RB b' (sset n v s)) /\
+  shadow_step stepA stepB (a, b) (Download n) = ((a, b), get_spec (sget n s)) /\
+  shadow_step stepA stepB (a, b) (Stat n) = ((a, b), stat_spec tA (sget n s)).
+Proof. exact @Proof.C37.shadow_contract. Qed.
+Print Assumptions C37_shadow_contract.
+
+(* ---- every client (testfs, sql, s3, shadow over any two of them) refines the contract: after ANY
+   history in the domain, the next answer is the one given by the stores name |-> bytes *)
+Theorem C37_upload_accepted : forall c ops n v, guard c (ops ++ [Upload n v]) = true ->
+  snd (step c (fst (run c (init c) ops)) (Upload n v)) = OOk.
+Proof. exact Proof.C37_thm.upload_refines. Qed.
+Print Assumptions C37_upload_accepted.
+
+Theorem C37_download_refines : forall c ops n, guard c (ops ++ [Download n]) = true ->
+  snd (step c (fst (run c (init c) ops)) (Download n)) = get_spec (sget n (fst (spec_stores ops))).
+Proof. exact Proof.C37_thm.download_refines. Qed.
+Print Assumptions C37_download_refines.
+
+Theorem C37_stat_refines : forall c ops n, guard c (ops ++ [Stat n]) = true ->
+  snd (step c (fst (run c (init c) ops)) (Stat n)) =
+  match sget n (snd (spec_stores ops)) with
+  | Some _ => stat_spec (tracks_size (active c)) (sget n (fst (spec_stores ops)))
+  | None => ONotFound
+  end.
+Proof. exact Proof.C37_thm.stat_refines. Qed.
+Print Assumptions C37_stat_refines.
+
+(* clause 1: exactly the bytes last uploaded under the name *)
+Theorem C37_last_upload_wins : forall c ops n v ops',
+  guard c ((ops ++ Upload n v :: ops') ++ [Download n]) = true ->
+  Proof.C37_thm.untouched_a n ops' = true ->
+  snd (step c (fst (run c (init c) (ops ++ Upload n v :: ops'))) (Download n)) = OBytes v.
+Proof. exact Proof.C37_thm.last_upload_wins. Qed.
+Print Assumptions C37_last_upload_wins.
+
+(* clause 2: that size from Stat where the client tracks sizes (sqlbackend reports 0) *)
+Theorem C37_stat_size : forall c ops n v ops',
+  guard c ((ops ++ Upload n v :: ops') ++ [Stat n]) = true ->
+  Proof.C37_thm.untouched_a n ops' = true -> Proof.C37_thm.untouched_b n ops' = true ->
+  snd (step c (fst (run c (init c) (ops ++ Upload n v :: ops'))) (Stat n)) =
+  OSize (if tracks_size (active c) then len v else 0).
+Proof. exact Proof.C37_thm.stat_size. Qed.
+Print Assumptions C37_stat_size.
+
+(* clause 3: the not-found answer for names never uploaded *)
+Theorem C37_notfound_download : forall c ops n,
+  guard c (ops ++ [Download n]) = true -> Proof.C37_thm.untouched_a n ops = true ->
+  snd (step c (fst (run c (init c) ops)) (Download n)) = ONotFound.
+Proof. exact Proof.C37_thm.never_uploaded_download. Qed.
+Print Assumptions C37_notfound_download.
+
+Theorem C37_notfound_stat : forall c ops n,
+  guard c (ops ++ [Stat n]) = true -> Proof.C37_thm.untouched_a n ops = true ->
+  snd (step c (fst (run c (init c) ops)) (Stat n)) = ONotFound.
+Proof. exact Proof.C37_thm.never_uploaded_stat. Qed.
+Print Assumptions C37_notfound_stat.
+
+(* clause 4 on the clients: after any history in the domain, a listing is acceptable (list_ok):
+   complete listings return exactly the stored names under the prefix, each once *)
+Theorem C37_list_refines : forall c ops p md zss,
+  guard c (ops ++ [List p md zss]) = true -> guard_list c (active c) (ops ++ [List p md zss]) = true ->
+  list_ok (active c) md (expected c (active c) p (fst (spec_stores ops)))
+          (snd (step c (fst (run c (init c) ops)) (List p md zss))) = true.
+Proof. exact Proof.C37_thm.list_refines. Qed.
+Print Assumptions C37_list_refines.
+
+Theorem C37_s3_listing_exactly_once : forall c ops p k zss,
+  c_bk c = Single KS3 ->
+  guard c (ops ++ [List p (Paged k) zss]) = true ->
+  guard_list c KS3 (ops ++ [List p (Paged k) zss]) = true ->
+  exists l, snd (step c (fst (run c (init c) ops)) (List p (Paged k) zss)) = OPages l /\
+    last_tok l = 0 /\
+    NoDup (concat (map fst l)) /\
+    forall x, In x (concat (map fst l)) <->
+              sget x (fst (spec_stores ops)) <> None /\ under c KS3 p x = true.
+Proof. exact Proof.C37_thm.s3_listing_exactly_once. Qed.
+Print Assumptions C37_s3_listing_exactly_once.
+
+Theorem C37_single_page_listing_exact : forall c e ops p l zss,
+  c_bk c = Single e -> (e = KSql -> p <> []) ->
+  guard c (ops ++ [List p Unpaged zss]) = true ->
+  guard_list c e (ops ++ [List p Unpaged zss]) = true ->
+  snd (step c (fst (run c (init c) ops)) (List p Unpaged zss)) = OPages [(l, 0)] ->
+  NoDup l /\ forall x, In x l <-> sget x (fst (spec_stores ops)) <> None /\ under c e p x = true.
+Proof. exact Proof.C37_thm.single_page_listing_exact. Qed.
+Print Assumptions C37_single_page_listing_exact.
+
+(* executable form used on observed traces: the oracle accepts every run of the model *)
+Theorem C37_check_sound : forall c ops, C37_check c ops (snd (run c (init c) ops)) = true.
+Proof. exact Proof.C37.check_sound. Qed.
+Print Assumptions C37_check_sound.
+
+(* ---- the domain is not an ad-hoc condition: it contains every natural name space.
+   s3: any root "/" ++ clean relative path, any clean relative names (the identity pather's valid names) *)
+Theorem C37_domain_s3_clean_names : forall c ops,
+  c_bk c = Single KS3 -> Proof.C37_names.s3_root_ok (s3_root c) = true ->
+  forallb normal_path (names_of ops) = true -> no_raw ops = true -> no_side ops = true ->
+  guard c ops = true /\ guard_list c KS3 ops = true.
+Proof. exact Proof.C37_names.s3_guard_of_valid. Qed.
+Print Assumptions C37_domain_s3_clean_names.
+
+(* testfs: clean relative root and names without ':', no name a directory of another *)
+Theorem C37_domain_fs_clean_names : forall c ops,
+  c_bk c = Single KFs -> Proof.C37_names.fs_name_ok (fs_root c) = true ->
+  forallb Proof.C37_names.fs_name_ok (names_of ops) = true ->
+  Proof.C37_names.prefix_free (names_of ops) = true ->
+  no_raw ops = true -> no_side ops = true ->
+  guard c ops = true /\ guard_list c KFs ops = true.
+Proof. exact Proof.C37_names.fs_guard_of_valid. Qed.
+Print Assumptions C37_domain_fs_clean_names.
+
+(* sql: any names of the form repo:tag; contents non-empty while the engine skips zero-valued assigns *)
+Theorem C37_domain_sql_tag_names : forall c ops,
+  c_bk c = Single KSql ->
+  forallb (fun n => match decompose n with Some _ => true | None => false end) (names_of ops) = true ->
+  negb (sql_zero c) || forallb (fun v => negb (is_nil v)) (contents_of ops) = true ->
+  no_raw ops = true -> no_side ops = true ->
+  guard c ops = true /\ guard_list c KSql ops = true.
+Proof. exact Proof.C37_names.sql_guard_of_valid. Qed.
+Print Assumptions C37_domain_sql_tag_names.
+
+Theorem C37_sql_decomposes_tag_names : forall r t,
+  r <> [] -> t <> [] -> Proof.C37_names.nocolon r = true -> Proof.C37_names.nocolon t = true ->
+  decompose (tag_name r t) = Some (r, t).
+Proof. exact Proof.C37_names.decompose_tag_name. Qed.
+Print Assumptions C37_sql_decomposes_tag_names.
+
+(* ---- outside the domain (each witness is a harness seed case) *)
+
+(* sqlbackend with the pinned gorm behaviour (engine oracle sql_zero = true): empty content over
+   existing content keeps the old bytes — "last upload wins" fails for empty contents *)
+Theorem C37_sql_empty_overwrite_refuted :
+  snd (run (Proof.C37_wit.cfg_of (Single KSql) 3 true) (init (Proof.C37_wit.cfg_of (Single KSql) 3 true))
+           [Upload Proof.C37_wit.w_rt Proof.C37_wit.w_x; Upload Proof.C37_wit.w_rt []; Download Proof.C37_wit.w_rt])
+  = [OOk; OOk; OBytes Proof.C37_wit.w_x].
+Proof. exact Proof.C37_wit.sql_empty_overwrite. Qed.
+Print Assumptions C37_sql_empty_overwrite_refuted.
+
+(* testfs: Stat of a never-uploaded name that is a directory of an uploaded name is not "not found" *)
+Theorem C37_fs_directory_stat_refuted :
+  snd (run (Proof.C37_wit.cfg_of (Single KFs) 3 true) (init (Proof.C37_wit.cfg_of (Single KFs) 3 true))
+           [Upload Proof.C37_wit.w_b_c Proof.C37_wit.w_1; Stat Proof.C37_wit.w_b; Download Proof.C37_wit.w_b])
+  = [OOk; OSizeAny; OErr].
+Proof. exact Proof.C37_wit.fs_dir_stat. Qed.
+Print Assumptions C37_fs_directory_stat_refuted.
+
+(* testfs: "r:t" and "r/t" are the same file, and the listing returns the '/' form *)
+Theorem C37_fs_colon_alias_refuted :
+  snd (run (Proof.C37_wit.cfg_of (Single KFs) 3 true) (init (Proof.C37_wit.cfg_of (Single KFs) 3 true))
+           [Upload Proof.C37_wit.w_rt Proof.C37_wit.w_1; Download Proof.C37_wit.w_r_t; List Proof.C37_wit.w_r Unpaged []])
+  = [OOk; OBytes Proof.C37_wit.w_1; OPages [([Proof.C37_wit.w_r_t], 0)]].
+Proof. exact Proof.C37_wit.fs_colon_alias. Qed.
+Print Assumptions C37_fs_colon_alias_refuted.
+
+(* observation (not a clause of the property, which speaks of paginated listings): the
+   non-paginated s3 List stops at ListMaxKeys names and hands back a token *)
+Theorem C37_s3_unpaged_truncates_observed :
+  snd (run (Proof.C37_wit.cfg_of (Single KS3) 2 true) (init (Proof.C37_wit.cfg_of (Single KS3) 2 true))
+           [Upload Proof.C37_wit.w_a Proof.C37_wit.w_1; Upload Proof.C37_wit.w_b Proof.C37_wit.w_2;
+            Upload Proof.C37_wit.w_c Proof.C37_wit.w_3; List [] Unpaged []])
+  = [OOk; OOk; OOk; OPages [([Proof.C37_wit.w_a; Proof.C37_wit.w_b], 3)]].
+Proof. exact Proof.C37_wit.s3_unpaged_truncates. Qed.
+Print Assumptions C37_s3_unpaged_truncates_observed.
+
+(* observation: shadow components that diverged (a write reached the active one only) *)
+Theorem C37_shadow_diverged_observed :
+  snd (run (Proof.C37_wit.cfg_of (Shadow KFs KSql) 3 true) (init (Proof.C37_wit.cfg_of (Shadow KFs KSql) 3 true))
+           [SideUpload false Proof.C37_wit.w_st Proof.C37_wit.w_1; Stat Proof.C37_wit.w_st; Download Proof.C37_wit.w_st])
+  = [OOk; ONotFound; OBytes Proof.C37_wit.w_1].
+Proof. exact Proof.C37_wit.shadow_diverged. Qed.
+Print Assumptions C37_shadow_diverged_observed.
+
+(* ---- non-vacuity: the domain contains non-trivial histories of every client; the oracle can fail *)
+Example C37_nonvacuous_s3 :
+  guard (Proof.C37_wit.cfg_of (Single KS3) 5 true) Proof.C37_wit.h_s3 = true /\
+  guard_list (Proof.C37_wit.cfg_of (Single KS3) 5 true) KS3 Proof.C37_wit.h_s3 = true /\
+  length (names_of Proof.C37_wit.h_s3) = 7%nat.
+Proof. vm_compute. repeat split; reflexivity. Qed.
+
+Example C37_nonvacuous_fs :
+  guard (Proof.C37_wit.cfg_of (Single KFs) 5 true) Proof.C37_wit.h_fs = true /\
+  guard_list (Proof.C37_wit.cfg_of (Single KFs) 5 true) KFs Proof.C37_wit.h_fs = true.
+Proof. vm_compute. split; reflexivity. Qed.
+
+Example C37_nonvacuous_sql :
+  guard (Proof.C37_wit.cfg_of (Single KSql) 5 true) Proof.C37_wit.h_sql = true /\
+  guard_list (Proof.C37_wit.cfg_of (Single KSql) 5 true) KSql Proof.C37_wit.h_sql = true.
+Proof. vm_compute. split; reflexivity. Qed.
+
+Example C37_nonvacuous_shadow :
+  guard (Proof.C37_wit.cfg_of (Shadow KSql KFs) 5 true) Proof.C37_wit.h_shadow = true /\
+  guard (Proof.C37_wit.cfg_of (Shadow KFs KSql) 5 true) Proof.C37_wit.h_shadow = true.
+Proof. vm_compute. split; reflexivity. Qed.
+
+Example C37_nonvacuous_pages :
+  s3_session 10 (fun k => Some k) 2 [[1]; [2]; [3]; [4]; [5]] 0 [[1]; [0; 1; 1]; [0]] =
+  [([[1]; [2]; [3]], 4); ([[4]; [5]], 0)].
+Proof. vm_compute. reflexivity. Qed.
+
+Example C37_oracle_can_fail :
+  C37_check (Proof.C37_wit.cfg_of (Single KS3) 5 true)
+            [Upload Proof.C37_wit.w_a Proof.C37_wit.w_1; Upload Proof.C37_wit.w_a Proof.C37_wit.w_x; Download Proof.C37_wit.w_a]
+            [OOk; OOk; OBytes Proof.C37_wit.w_1] = false.
 Proof. vm_compute. reflexivity. Qed.
